@@ -126,14 +126,16 @@ def fault_store(kind, db_path=None, **kw):
 class Proc:
     """One emulated server process."""
 
-    def __init__(self, spec, store, *, idle_timeout=1000.0, backoff=(0.5, 3), name="wf", stack="inproc", lifecycle_db=None, create_rows=False):
+    def __init__(self, spec, store, *, idle_timeout=1000.0, backoff=(0.5, 3), name="wf", stack="inproc", lifecycle_db=None, create_rows=False, engine=None):
         import llama_agents.server.server as srv
         import workflows.plugins.basic as basic
         from llama_agents.server import WorkflowServer
 
         patch_modules()
         engine_run.install_probes()
-        fresh = basic.BasicRuntime()
+        # `engine`: a second replica of the DBOS-substitute stack shares the first one's engine (DBOS's system database is shared)
+        fresh = engine if engine is not None else basic.BasicRuntime()
+        self.engine = fresh
         basic.basic_runtime = fresh
         srv.basic_runtime = fresh
         try:
@@ -213,7 +215,7 @@ def build_dbos_substitute(basic, store, idle_timeout, lifecycle_db):
 
     class SubDBOS:
         """what idle_release needs from the engine: wait for a workflow id to finish; purge it so the id can be reused"""
-        calls = []
+        calls = basic.vf_calls if hasattr(basic, "vf_calls") else []
 
         @staticmethod
         async def retrieve_workflow_async(run_id):
@@ -240,8 +242,26 @@ def build_dbos_substitute(basic, store, idle_timeout, lifecycle_db):
             SubDBOS.calls.append(("run_workflow", run_id, vclock.vnow()))
             return self._decorated.run_workflow(run_id, workflow, init_state, start_event=start_event, serialized_state=None, serializer=serializer)
 
+        def get_external_adapter(self, run_id):
+            inner = self._decorated.get_external_adapter(run_id)
+            q = basic._queues.get(run_id)
+            orig_send = inner.send_event
+
+            async def send_event(tick):
+                # history of what the real decorators hand to the engine: was the engine run this tick goes to already finished?
+                ev = getattr(tick, "event", None)
+                uid = ev.get("uid", None) if ev is not None and hasattr(ev, "get") else None
+                SubDBOS.calls.append(("send", run_id, vclock.vnow(), uid, bool(q is not None and q.complete is not None and q.complete.done())))
+                return await orig_send(tick)
+
+            inner.send_event = send_event
+            return inner
+
     ir.DBOS = SubDBOS
-    SubDBOS.calls = []
+    # one history per engine (replicas share the engine, hence the history)
+    if not hasattr(basic, "vf_calls"):
+        basic.vf_calls = []
+    SubDBOS.calls = basic.vf_calls
     tick_persistence = TickPersistenceDecorator(SubEngine(basic), store)
     rt = ir.DBOSIdleReleaseDecorator(EventInterceptorDecorator(tick_persistence), store=store, idle_timeout=idle_timeout, journal_crud=None,
                                      lifecycle_lock=lambda: lc.SqliteRunLifecycleLock(lifecycle_db))
